@@ -19,6 +19,7 @@ from copy import deepcopy
 
 from numpy import allclose
 
+from .multi_domain import MultiDomain
 from .multi_field import MultiField
 from .operators.operator import _OpChain, _OpProd, _OpSum
 from .operators.simple_linear_operators import FieldAdapter
@@ -89,6 +90,10 @@ def _optimise_operator(op):
                     warnings.warn('Operator should be defined on a MultiDomain')
                     pass
 
+            # a shared node which was not replaced has further parents
+            for other in id_dic[id(op)][1:]:
+                if type(nodes[other][1]) is int:
+                    rebuild_domains(nodes[other][1])
             index = nodes[index][1]
             cond = type(index) is int
 
@@ -97,10 +102,13 @@ def _optimise_operator(op):
         # If nothing added - is a leaf!
         isleaf = True
         if isinstance(op, _OpChain):
-           for i in range(len(op._ops)):
-                if isnode(op._ops[i]):
-                    nodes.append((op._ops[i], active_node, left))
-                    isleaf = False
+            # Only a node at the end of a chain can be replaced by a FieldAdapter;
+            # nodes at other positions are treated as opaque parts of the chain
+            # (detached, since the same object may be edited in place elsewhere)
+            op._ops = tuple(deepcopy(oo) if isnode(oo) else oo for oo in op._ops[:-1]) + op._ops[-1:]
+            if isnode(op._ops[-1]):
+                nodes.append((op._ops[-1], active_node, left))
+                isleaf = False
         elif isnode(op):
             nodes.append((op, active_node, left))
             isleaf = False
@@ -165,7 +173,7 @@ def _optimise_operator(op):
         same_leaf = {}
         get_duplicate_keys(key_list_leaf, id_leaf)
 
-        for key in key_list_leaf:
+        for key in list(key_list_leaf):
             to_compare = []
             for leaf in id_leaf[key]:
                 parent = nodes[leaf[0]][0]
@@ -187,6 +195,12 @@ def _optimise_operator(op):
                     compare_iterator = iter(to_compare)
                     first = next(compare_iterator)
 
+            # The common part is replaced by a FieldAdapter: its target must not be a MultiDomain
+            while first_difference > 0 and isinstance(to_compare[0][first_difference-1].target, MultiDomain):
+                first_difference -= 1
+            if all(isinstance(oo, FieldAdapter) for oo in to_compare[0][:first_difference]):
+                key_list_leaf.remove(key)
+                continue
             common_op = to_compare[0][:first_difference]
             res_op = common_op[0]
             for ops in common_op[1:]:
@@ -246,6 +260,9 @@ def _optimise_operator(op):
     # A shared subtree which contains another shared subtree has to be inserted first
     # (i.e. evaluated later): sort by decreasing height
     key_list_node.sort(key=lambda key: -heights[key])
+    # Subtrees are replaced by FieldAdapters: their target must not be a MultiDomain
+    key_list_node = [key for key in key_list_node
+                     if not isinstance(nodes[id_dic[key][0]][0].target, MultiDomain)]
 
     for key in key_list_node:
         same_node[key] = [nodes[id_dic[key][0]][0],
